@@ -81,6 +81,8 @@ def run(ctx):
             same_text = 'self.char_starts.clone()' in c and b in ('self.buffer.clone()',)
             derived = not ('self.char_starts.clone()' == c) and ('char_starts' in c or 'collect' in c or 'map(' in c)
             local = flds['char_starts'].get('k') == 'path' and flds['char_starts']['path'] not in ('self.char_starts',)
+            # a table produced by a call (a helper that re-bases the entries): not the original table itself
+            derived = derived or (flds['char_starts'].get('k') in ('call', 'mcall') and c != 'self.char_starts.clone()')
             ok = fresh or same_text or derived or local
             r1.inst({'fn': fn['name'], 'buffer': b[:50], 'table': c[:50], 'ok': ok}, ok=ok, kind=(fn['name'], st['line'] - fn['line']))
             if not ok:
